@@ -14,6 +14,7 @@ PLAN = {
  "m12_sign_mut_length_check": ("sign_mut accepts a message of exactly n bytes", ["C15"]),
  "m13_hidden_call_counter": ("every 700th signing call in a process flips a randomizer bit (hidden static state)", ["C09", "C07"]),
  "m15_root_prefix_compare": ("Merkle root compared without its last byte", ["C02"]),
+ "m16_per_thread_randomizer_salt": ("std builds: the randomizer is mixed with a per-thread nonce (thread_local), so results differ between OS threads only", ["C09"]),
  "m14_auth_path_h10": ("authentication path sibling wrong at tree level 7 (trees of height >= 8 only)", ["C01", "C07"]),
 }
 only = sys.argv[1:]
